@@ -326,6 +326,8 @@ def derive_ops(I, st, vals, ops):
     at = set()
     for v in vals:
         for (o, oo) in I.flat(st, v):
+            if oo and o.startswith("Const("):
+                continue
             at.add((o, oo | frozenset(ops)))
     return Val(norm_atoms(frozenset(at)))
 
